@@ -1345,6 +1345,9 @@ def _finalize_results(
                 finalized[agg.name] = finalized[agg.name].astype(new_dtype)
             finalized[agg.name] = np.where(count_mask, fill_value, finalized[agg.name])
 
+    # cast first: the final dtype can hold the user's fill_value, the finalized dtype (e.g. bool) may not
+    finalized[agg.name] = finalized[agg.name].astype(agg.dtype["final"], copy=False)
+
     # Final reindexing has to be here to be lazy
     if not reindex.blockwise and expected_groups is not None:
         finalized[agg.name] = reindex_(
